@@ -26,7 +26,7 @@ Definition passed (x : Z) (h : hist) : list Z :=
   filter (fun id => zmem id (h_cor h) && negb (zmem id (h_hand h))) (before x (h_acc h)).
 
 Definition upd (h : hist) (x : zlab * zobs) : hist :=
-  let '((t, a, b), (r, _, _, _, _)) := x in
+  let '((t, a, b), (r, _, _, _, _, _)) := x in
   if t =? 0 then
     let h1 := mkH (h_acc h) (h_ref h) (h_hand h) (h_fin h) (h_cor h) ((a, b) :: h_szs h) (h_drop h) in
     if (r =? 0) || (r =? 5) then mkH (h_acc h1 ++ [a]) (h_ref h1) (h_hand h1) (h_fin h1) (h_cor h1) (h_szs h1) (h_drop h)
@@ -69,7 +69,7 @@ Definition unfinished (h : hist) : list Z :=
   filter (fun id => negb (zmem id (h_fin h)) && negb (zmem id (h_drop h))) (h_acc h).
 Definition unfinished_sum (h : hist) : Z := sumZ (map (fun id => szof id (h_szs h)) (unfinished h)).
 
-Definition o_size (o : zobs) : Z := let '(_, sz, _, _, _) := o in sz.
+Definition o_size (o : zobs) : Z := let '(_, sz, _, _, _, _) := o in sz.
 
 (* ---- the clauses, as booleans ---------------------------------------------------------------------------- *)
 (* B: the reported size is never negative and never exceeds the capacity *)
